@@ -79,6 +79,57 @@ def build(tier="quick"):
     return out, path, pairs, metas
 
 
+CFG_G1 = 'CONSTANTS N = %d\nSPECIFICATION Spec\nINVARIANT Emit\nCHECK_DEADLOCK FALSE\n'
+CFG_G2 = 'CONSTANTS CheckMasks = FALSE  Stride = 1  Phase = 0\nSPECIFICATION Spec\nINVARIANTS Laws Emit\nCHECK_DEADLOCK FALSE\n'
+
+
+def build_general(tier="quick"):
+    """The general-slope universe: lines, triangles and quadrilaterals with at least one edge of another slope than 0, 1, -1, infinity
+    (Gen_ShapesG), together with points, rectangles, rings and holed polygons of the octilinear universe; answers by PlanarGeneral
+    (Gen_PairsG).  Selection is by position (no seed): the universe is the same in every run."""
+    octi, _, _, ometas = build("quick")
+    gdata, gmeta = vlib.cached_tlc("shapesG-%d" % N, "Gen_ShapesG", CFG_G1 % N, workers=8, timeout=900)
+    gen = [json.loads(l)[1] for l in open(gdata)]
+    dense = tier == "thorough"
+    pick = []
+    cnt = {}
+    for sh in gen:
+        k = (sh[0], len(sh[1]))
+        cnt[k] = cnt.get(k, 0) + 1
+        stride = {("line", 2): 1, ("line", 3): 2 if dense else 4, ("poly", 4): 1, ("poly", 5): 2 if dense else 4}[k]
+        if cnt[k] % stride == 0:
+            pick.append({"s": sh, "g": 1})
+    ocnt = {}
+    for sh in octi:
+        s = sh["s"]
+        k = s[0] if s[0] != "poly" else ("holed" if s[2] else "ring")
+        ocnt[k] = ocnt.get(k, 0) + 1
+        stride = {"pt": 1, "rect": 3, "line": 40, "ring": 30, "holed": 4 if dense else 8}[k]
+        if ocnt[k] % stride == 0:
+            pick.append({"s": s, "g": 0})
+    # receivers: one general shape per D4 class (every second class in the quick tier), and the octilinear extras of kinds rect / holed
+    seen, nrep = set(), 0
+    for sh in pick:
+        ke = key(sh["s"], D4[0])
+        kd = min(key(sh["s"], g) for g in D4)
+        sh["a"] = 0
+        if sh["g"] == 1 and kd == ke and kd not in seen:
+            seen.add(kd)
+            nrep += 1
+            sh["a"] = 1 if (dense or nrep % 2 == 0) else 0
+        elif sh["g"] == 0 and sh["s"][0] in ("rect", "poly") and sh["s"][0] != "pt":
+            sh["a"] = 1 if (sh["s"][0] == "rect" or sh["s"][2]) else 0
+    d = os.path.join(vlib.BUILD, "universe")
+    os.makedirs(d, exist_ok=True)
+    text = "".join(json.dumps({"s": s["s"], "a": s["a"]}, separators=(",", ":")) + "\n" for s in pick)
+    h = hashlib.sha256(text.encode()).hexdigest()[:16]
+    path = os.path.join(d, "shapesG-%s.ndjson" % h)
+    if not os.path.exists(path):
+        open(path, "w").write(text)
+    pairs, pmeta = vlib.cached_tlc("pairsG-" + h, "Gen_PairsG", CFG_G2, workers=16, timeout=3000, env={"SHAPES": path})
+    return pick, path, pairs, [gmeta, pmeta]
+
+
 if __name__ == "__main__":
     import time
     t = time.time()
